@@ -83,11 +83,17 @@ pub fn observe(c: &c02::Case, format: Format, generate0: bool, ops: &[(u8, u8)],
                 let sz = match (cur, f) { (Some(s), 1) => Size::new(s.width + 1, s.height), (Some(s), _) => s, (None, _) => Size::new(2, 2) };
                 let data: Vec<u8> = (0..sz.width as usize * sz.height as usize * 4).map(|_| rng.next() as u8).collect();
                 let img = ImageView::new(&data, sz, ColorFormat::RGBA_U8).unwrap();
-                if f == 2 {
+                if f == 2 && rng.below(2) == 0 {
                     let token = CancellationToken::new();
                     token.cancel();
                     let mut rep = |_p: f32| {};
                     let mut prog = Progress::new(&mut rep).with_cancellation(&token);
+                    catch(|| e.write_surface_with_progress(img, &mut prog))
+                } else if f == 2 {
+                    // cancellation only: a token without a reporter function
+                    let token = CancellationToken::new();
+                    token.cancel();
+                    let mut prog = Progress::none().with_cancellation(&token);
                     catch(|| e.write_surface_with_progress(img, &mut prog))
                 } else {
                     catch(|| e.write_surface(img))
